@@ -11,17 +11,13 @@ import (
 
 	"go.lstv.dev/util/constraint"
 	"go.lstv.dev/util/size"
+	"verif/libdefaults"
 	"verif/mc"
 	"verif/oracle"
 )
 
 func reset() {
-	size.Formatter = size.DefaultFormatter
-	size.Parser = size.DefaultParser[[]byte]
-	size.DisableMarshalTextUnit, size.DisableMarshalJSONStringForm, size.DisableMarshalJSONObjectForm = false, false, false
-	size.DefaultRule = size.RuleEnableJSONStringForm | size.RuleEnableJSONObjectForm
-	size.MaxInputLength = 128
-	size.MaxObjectKeys = 16
+	libdefaults.Size()
 }
 
 func typed(err error) bool {
@@ -269,7 +265,7 @@ type txArg struct {
 }
 
 func setupTX(a txArg) {
-	size.MaxInputLength = 128
+	size.MaxInputLength = libdefaults.SizeMaxInputLength // default configuration: whatever the library starts with
 	if a.Max != nil {
 		size.MaxInputLength = *a.Max
 	}
